@@ -211,12 +211,79 @@ func isBuilderInvoke(call *ssa.Call, iface string) bool {
 	return engine.IsNamed(call.Call.Value.Type(), builderPkg, iface)
 }
 
+// resolveFuncValue finds the function a called value denotes: a function, a function literal, a local variable
+// holding one (single assignment), or such a variable captured by an enclosing literal.
+func resolveLocalFunc(v ssa.Value, depth int) *ssa.Function {
+	if depth > 4 {
+		return nil
+	}
+	v = engine.LocalValue(v)
+	switch x := v.(type) {
+	case *ssa.Function:
+		return x
+	case *ssa.MakeClosure:
+		fn, _ := x.Fn.(*ssa.Function)
+		return fn
+	case *ssa.UnOp:
+		if fv, ok := x.X.(*ssa.FreeVar); ok && x.Op == token.MUL {
+			return resolveFreeVar(fv, depth)
+		}
+	case *ssa.FreeVar:
+		return resolveFreeVar(x, depth)
+	}
+	return nil
+}
+
+func resolveFreeVar(fv *ssa.FreeVar, depth int) *ssa.Function {
+	fn := fv.Parent()
+	idx := -1
+	for i, f := range fn.FreeVars {
+		if f == fv {
+			idx = i
+		}
+	}
+	if idx < 0 || fn.Parent() == nil {
+		return nil
+	}
+	var out *ssa.Function
+	engine.Instrs(fn.Parent(), func(in ssa.Instruction) {
+		mc, ok := in.(*ssa.MakeClosure)
+		if !ok || mc.Fn != ssa.Value(fn) || idx >= len(mc.Bindings) {
+			return
+		}
+		b := mc.Bindings[idx]
+		if al, ok := b.(*ssa.Alloc); ok {
+			var stores []*ssa.Store
+			for _, r := range *al.Referrers() {
+				if st, ok := r.(*ssa.Store); ok && st.Addr == ssa.Value(al) {
+					stores = append(stores, st)
+				}
+			}
+			if len(stores) == 1 {
+				out = resolveLocalFunc(stores[0].Val, depth+1)
+			}
+			return
+		}
+		out = resolveLocalFunc(b, depth+1)
+	})
+	return out
+}
+
 func evalSpec(v ssa.Value, depth int) *spec {
 	if depth > 12 {
 		return &spec{kind: "other", note: "too deep"}
 	}
 	v = engine.LocalValue(v)
 	call, ok := v.(*ssa.Call)
+	if ok && !call.Call.IsInvoke() {
+		// a spec produced by a local helper (function literal or module function) with a single return:
+		// the helper's returned spec
+		if fn := resolveLocalFunc(call.Call.Value, 0); fn != nil && fn.Blocks != nil {
+			if rets := engine.Returns(fn); len(rets) == 1 && len(rets[0].Results) == 1 {
+				return evalSpec(rets[0].Results[0], depth+1)
+			}
+		}
+	}
 	if !ok || !isBuilderInvoke(call, "SelectorSpecBuilder") {
 		return &spec{kind: "other", note: "not a SelectorSpecBuilder call: " + v.String()}
 	}
